@@ -8,6 +8,8 @@ type scope struct {
 	outer           *scope
 	declarationList []ast.Declaration
 	labels          []string
+	loopLabels      []bool // parallel to labels: the label belongs to an iteration statement
+	labelRun        int    // number of labels directly in front of the statement being parsed
 	allowIn         bool
 	inIteration     bool
 	inSwitch        bool
@@ -27,6 +29,20 @@ func (p *parser) closeScope() {
 
 func (p *scope) declare(declaration ast.Declaration) {
 	p.declarationList = append(p.declarationList, declaration)
+}
+
+// hasLoopLabel reports whether name labels an enclosing iteration statement
+// (the target a continue statement needs, ECMA-262 5.1 - 12.7).
+func (p *scope) hasLoopLabel(name string) bool {
+	for i, label := range p.labels {
+		if label == name && p.loopLabels[i] {
+			return true
+		}
+	}
+	if p.outer != nil && !p.inFunction {
+		return p.outer.hasLoopLabel(name)
+	}
+	return false
 }
 
 func (p *scope) hasLabel(name string) bool {
